@@ -160,6 +160,11 @@ def replay(o, tree):
             import shutil
             shutil.rmtree(d, ignore_errors=True)
     cfg = o.get("cfg") or {}
+    if cfg.get("kind") == "repeat":
+        from contracts import c16
+        jobs, out = c16._pairs(tree, c16.PAIRS)
+        if out:
+            return dict(jobs=jobs[:2], expected="'.repeat n { body }' lays every copy out where the body written n times would be", observed=out[:3], reproduced=True)
     if cfg.get("kind") in ("data", "fill"):
         r = c06.replay(o, tree)
         if r and r.get("reproduced"):
